@@ -257,6 +257,9 @@ const TEMPLATES: &[(&str, Option<&str>, &str)] = &[
     ("nested fold: inner callback returns the outer callback's list parameter where a str accumulates", None, "start :: fn do\n    x := fold([[\"l\"]], \"0\", pu h6, h7 ->\n            fold([9], h7, pu h8, h9 ->\n                    h6\n                end)\n        end)\n    print(x + \"-\")\nend\n"),
     ("tuple by number with an un-annotated str element", None, "half :: fn x do\n    q :: (x, 1.0) / 2.0\n    print(q)\nend\n\nstart :: fn do\n    half(\"abc\")\nend\n"),
     ("tuple subtraction with string elements", None, "start :: fn do\n    a := (\"ab\", 3)\n    b := (\"b\", 1)\n    print(a - b)\nend\n"),
+    ("ret of a str inside the trailing if of an int function, result used as int", None, "classify :: fn x: int -> int do\n    if x < 0 do\n        ret \"negative\"\n    else do\n        1\n    end\nend\n\nstart :: fn do\n    a: int = classify(-3)\n    print(a + 1)\nend\n"),
+    ("ret of a str inside the trailing case of an int function, result used as int", None, "pick :: fn m: Maybe(int) -> int do\n    case m do\n        Just v -> v end\n        None -> ret \"none\" end\n    end\nend\n\nstart :: fn do\n    print(pick(Maybe.None) * 3)\nend\n"),
+    ("ret of a tuple inside the trailing if of a function with inferred int result", None, "half :: fn x: int ->\n    if x < 0 do\n        ret (x, x)\n    else do\n        x\n    end\nend\n\nstart :: fn do\n    print(half(-2) + 1)\nend\n"),
     ("deferred tuple comparison applied to a str element", None, "lt :: fn p ->\n    (p, 1) < (6, 1)\nend\n\nstart :: fn do\n    s := \"x\"\n    print(lt(s))\nend\n"),
     ("deferred tuple subtraction applied to a str element", None, "sub :: fn p ->\n    (p, 1) - (6, 1)\nend\n\nstart :: fn do\n    s := \"x\"\n    print(sub(s))\nend\n"),
     ("tuple addition with string elements (sound: concatenation)", None, "start :: fn do\n    t := (1, \"a\") + (2, \"b\")\n    print(t)\n    u := t\n    u += (1, \"c\")\n    print(u)\nend\n"),
